@@ -1008,36 +1008,26 @@ impl From<token::Ident> for Ident {
 
 impl From<(&token::Ident, &token::Ident)> for Ident {
     fn from(f: (&token::Ident, &token::Ident)) -> Self {
-        let mut string = match f.0 {
+        let function = match f.0 {
             token::Ident::Plain(s) => s,
             token::Ident::String(s) => s,
             token::Ident::Single(s) => s,
             token::Ident::Double(s) => s,
             token::Ident::Integer(s) => s,
-        }
-        .to_string();
-        string.push('.');
+        };
+        // "<parameter>.<function>.<parameter's suffix>": a variable is typed by
+        // its last character, or else by its first letter, so both must be the
+        // parameter's own.
+        let mangle = |param: &str| -> std::rc::Rc<str> {
+            let base = param.trim_end_matches(['$', '!', '#', '%']);
+            format!("{}.{}.{}", base, function, &param[base.len()..]).into()
+        };
         match f.1 {
-            token::Ident::Plain(s) => Ident::Plain({
-                string.push_str(s);
-                string.into()
-            }),
-            token::Ident::String(s) => Ident::String({
-                string.push_str(s);
-                string.into()
-            }),
-            token::Ident::Single(s) => Ident::Single({
-                string.push_str(s);
-                string.into()
-            }),
-            token::Ident::Double(s) => Ident::Double({
-                string.push_str(s);
-                string.into()
-            }),
-            token::Ident::Integer(s) => Ident::Integer({
-                string.push_str(s);
-                string.into()
-            }),
+            token::Ident::Plain(s) => Ident::Plain(mangle(s)),
+            token::Ident::String(s) => Ident::String(mangle(s)),
+            token::Ident::Single(s) => Ident::Single(mangle(s)),
+            token::Ident::Double(s) => Ident::Double(mangle(s)),
+            token::Ident::Integer(s) => Ident::Integer(mangle(s)),
         }
     }
 }
